@@ -56,6 +56,12 @@ class TaintDomain:
             if isinstance(lits, (tuple, list)) and lits and all(isinstance(x, str) and ENTITY.match(x) for x in lits) \
                     and isinstance(g.elt, ast.Compare) and isinstance(g.elt.ops[0], ast.NotIn) and not outcome:
                 return None
+        if isinstance(test, ast.Call) and isinstance(test.func, ast.Name) and test.func.id == "any" and test.args and isinstance(test.args[0], ast.GeneratorExp):
+            g = test.args[0]
+            lits = self.ctx.prog.const(self.fi.module, g.generators[0].iter)
+            if isinstance(lits, (tuple, list)) and lits and all(isinstance(x, str) and ENTITY.match(x) for x in lits) \
+                    and isinstance(g.elt, ast.Compare) and isinstance(g.elt.ops[0], ast.In) and outcome:
+                return None
         # (b) isinstance(V, str) false for a value that is the node's text
         if isinstance(test, ast.Call) and isinstance(test.func, ast.Name) and test.func.id == "isinstance" and len(test.args) == 2 \
                 and isinstance(test.args[1], ast.Name) and test.args[1].id == "str" and not outcome:
@@ -205,6 +211,38 @@ class TaintDomain:
                 return set()  # pieces are checked where they are assembled
             if isinstance(f, ast.Attribute) and f.attr == "get" and e.args:
                 return self.dict_taint(f.value, st)
+            # a repo helper that assembles markup from tainted arguments: analyse it with its parameters tainted like the actuals
+            for tg in self.ctx.world.resolve_call(self.ft, e):
+                if tg.func is not None and tg.func.qname != self.fi.qname and getattr(self, "depth", 0) < 2:
+                    am = self.ctx.world.arg_map(tg, e)
+                    st2 = set()
+                    for pn, a in am.items():
+                        for (src, san) in self.taint(a, st):
+                            st2.add((pn, src, san))
+                        for (src, san) in self.dict_taint(a, st) if not isinstance(a, ast.Call) or (isinstance(a.func, ast.Attribute) and a.func.attr in ("items", "values")) else ():
+                            st2.add((pn, "dict:" + src, san))
+                        if isinstance(a, ast.Call) and isinstance(a.func, ast.Attribute) and a.func.attr in ("items", "values"):
+                            for (src, san) in self.dict_taint(a.func.value, st):
+                                st2.add((pn, "dict:" + src, san))
+                    has_assembly = any(isinstance(n, (ast.JoinedStr,)) or (isinstance(n, ast.BinOp) and isinstance(n.op, ast.Add)) or
+                                       (isinstance(n, ast.Call) and isinstance(n.func, ast.Attribute) and n.func.attr in ("format", "join"))
+                                       for n in ast.walk(tg.func.node))
+                    if st2 and has_assembly:
+                        sub = TaintDomain(self.ctx, tg.func)
+                        sub.depth = getattr(self, "depth", 0) + 1
+                        fl = Flow(tg.func, sub, self.ctx.hier, lambda x: resolve_exc_class(self.ctx.prog, tg.func.module, x) or "Exception")
+                        sub.flow = fl
+                        fl.quiet = self.flow.quiet if self.flow is not None else 0
+                        fl.run(frozenset(st2))
+                        if self.flow is None or not self.flow.quiet:
+                            self.sinks.extend(sub.sinks)
+                            self.tag_names.extend(sub.tag_names)
+                        # what comes back: the taint of the returned expression(s) (markup pieces were checked inside)
+                        out_t = set()
+                        for (r_, st_r) in fl.returns:
+                            if r_.value is not None:
+                                out_t |= sub.taint(r_.value, st_r)
+                        return out_t
             # a wrapper of one level around escape: inline its single return
             for tg in self.ctx.world.resolve_call(self.ft, e):
                 if tg.func is not None:
